@@ -2,7 +2,7 @@
 # confirm every seeded change that has no "confirmed" record yet (sequential, newest round first; suite with $NP processes, niced)
 cd "$(dirname "$(readlink -f "$0")")/.."
 NP=${NP:-6}
-for pat in '_[56]' '_[34]' '_[12]'; do
+for pat in '_[78]' '_[56]' '_[34]' '_[12]'; do
 for d in seeded/*${pat}/; do
   [ -d "$d" ] || continue
   if ! python3 -c "import json,sys; sys.exit(0 if 'confirmed' in json.load(open('$d/meta.json')) else 1)" 2>/dev/null; then
